@@ -9,6 +9,8 @@ STD_VARIANTS = {
     "std::result::Result": {0: "Ok", 1: "Err"},
     "std::ops::ControlFlow": {0: "Continue", 1: "Break"},
     "std::cmp::Ordering": {-1: "Less", 0: "Equal", 1: "Greater", 255: "Less"},
+    "flume::TrySendError": {0: "Full", 1: "Disconnected"},
+    "flume::TryRecvError": {0: "Empty", 1: "Disconnected"},
 }
 
 
@@ -522,3 +524,75 @@ def blocks_calling(P, fn, pred):
 def blocks_calling_local(P, fn, targets):
     targets = set(targets)
     return [b for b, t in fn.calls() if targets & set(P.call_targets(t))]
+
+
+# ------------------------------------------------------------------------------------------------
+# boolean flags: `let f = matches!(x, P)` / `let mut ok = false; if c { ok = true }; if ok {..}`
+# ------------------------------------------------------------------------------------------------
+def _flag_local(fn, bb):
+    """for a switch on a bool: the local holding the flag (following copies) and the position of the read"""
+    t = fn.term(bb)
+    d = t["d"]
+    if "p" not in d or d["p"]["proj"]:
+        return None, None
+    l = d["p"]["l"]
+    pos = endpos(fn, bb)
+    for _ in range(6):
+        defs = fn.reaching_defs(l, pos)
+        if len(defs) == 1 and defs[0][2] == "assign" and defs[0][3]["k"] == "use" and defs[0][3]["a"]["k"] in ("copy", "move") \
+                and not defs[0][3]["a"]["p"]["proj"]:
+            pos = (defs[0][0], defs[0][1])
+            l = defs[0][3]["a"]["p"]["l"]
+            continue
+        break
+    return l, pos
+
+
+def flag_edges(P, fn, base_edges, rounds=2):
+    """edges of boolean-flag switches that imply one of base_edges was taken: every reaching definition that
+    makes the flag true sits in a block that can only be reached through base_edges"""
+    edges = set(base_edges)
+    for _ in range(rounds):
+        added = False
+        for b in fn.live_blocks():
+            t = fn.term(b)
+            if t["k"] != "switch":
+                continue
+            dty = (t["d"].get("p") or {}).get("ty")
+            if dty != "bool":
+                continue
+            l, pos = _flag_local(fn, b)
+            if l is None:
+                continue
+            defs = fn.reaching_defs(l, pos)
+            if len(defs) < 2:
+                continue
+            consts = []
+            okc = True
+            for (db, di, kind, payload) in defs:
+                if kind == "assign" and payload["k"] == "use" and payload["a"]["k"] == "const" and payload["a"].get("val") in (0, 1, True, False):
+                    consts.append((db, bool(payload["a"]["val"])))
+                else:
+                    okc = False
+            if not okc:
+                continue
+            for val in (True, False):
+                blocks = [db for (db, v) in consts if v is val]
+                if blocks and all(must_pass_edges(fn, db, edges) for db in blocks):
+                    for (v, tgt) in [(bool(v_), tg) for v_, tg in t["branches"]] + [(None, t["otherwise"])]:
+                        vv = v if v is not None else (not bool(t["branches"][0][0]) if len(t["branches"]) == 1 else None)
+                        if vv is val and (b, tgt) not in edges:
+                            edges.add((b, tgt))
+                            added = True
+        if not added:
+            break
+    return edges
+
+
+def guarded(P, fn, site_bb, base_edges):
+    """site is reachable only through base_edges, allowing boolean flags set under them"""
+    if not base_edges:
+        return False
+    if must_pass_edges(fn, site_bb, base_edges):
+        return True
+    return must_pass_edges(fn, site_bb, flag_edges(P, fn, base_edges))
